@@ -1,13 +1,17 @@
 use crate::engine::Engine;
 
+pub mod c04;
+pub mod c07;
 pub mod c19;
 
 pub fn run(id: &str, e: &Engine) -> bool {
 	match id {
+		"C04" => c04::check(e),
+		"C07" => c07::check(e),
 		"C19" => c19::check(e),
 		_ => return false,
 	}
 	true
 }
 
-pub const ALL: &[&str] = &["C19"];
+pub const ALL: &[&str] = &["C04", "C07", "C19"];
